@@ -1,9 +1,10 @@
 // peng runs scenarios on real in-process piko clusters (engine P) and writes
 // one ndjson line per observation for validation against spec/TraceP.tla.
-//   mode "c06": every combination of real upstream placement, per-node beliefs,
-//               entry node and externally supplied forward header (Proxy.tla)
-//   mode "c01": placements of upstreams of several endpoints, every entry node
-//               and addressing mode, plus churn
+//
+//	mode "c06": every combination of real upstream placement, per-node beliefs,
+//	            entry node and externally supplied forward header (Proxy.tla)
+//	mode "c01": placements of upstreams of several endpoints, every entry node
+//	            and addressing mode, plus churn
 package main
 
 import (
@@ -54,7 +55,7 @@ type Step struct {
 	Dereg    []string `json:"dereg"` // those of them whose registry does not list the endpoint afterwards
 	Bel      []Belief `json:"bel"`
 	Entry    string   `json:"entry"`
-	Ext      string   `json:"ext"` // what the client says about the forward marker: none | forged | false | hide
+	Ext      string   `json:"ext"`   // what the client says about the forward marker: none | forged | false | hide
 	Route    string   `json:"route"` // http | tcp
 	Mode     string   `json:"mode"`  // host | header | tcp
 	Target   string   `json:"target"`
@@ -73,26 +74,26 @@ type Step struct {
 	E        string   `json:"e"`      // its endpoint (request)
 	Served   string   `json:"served"` // request: identity stamped by the listener that answered
 	Lst      []Lstate `json:"lst"`    // unused
-	Reg      []EC     `json:"reg"` // Manager.Endpoints()
+	Reg      []EC     `json:"reg"`    // Manager.Endpoints()
 	Sess     int      `json:"sess"`
 	Adv      []EC     `json:"adv"` // cluster.State local endpoints
 	Gos      []EC     `json:"gos"` // live endpoint:* keys of the gossip state
 	Disabled bool     `json:"disabled"`
 	DeltaMs  int      `json:"deltaMs"` // Expiry: close time minus token expiry (ms); 99999 = still open
 	// C18 (op Loss)
-	Victim   string   `json:"victim"`
-	Kill     bool     `json:"kill"`
-	Phase    string   `json:"phase"`
-	StopMs   int      `json:"stopMs"`
-	GraceMs  int      `json:"graceMs"`
-	Checks   []Check  `json:"checks"`
-	Tl       []TLE    `json:"tl"` // the time line recorded while the node was lost
+	Victim  string  `json:"victim"`
+	Kill    bool    `json:"kill"`
+	Phase   string  `json:"phase"`
+	StopMs  int     `json:"stopMs"`
+	GraceMs int     `json:"graceMs"`
+	Checks  []Check `json:"checks"`
+	Tl      []TLE   `json:"tl"` // the time line recorded while the node was lost
 	// C08 (op Http)
-	Case     string   `json:"case"`
-	Fields   []string `json:"fields"` // names of request/response fields that differ
-	WantSt   int      `json:"wantSt"`
-	TookMs   int      `json:"tookMs"`
-	LimitMs  int      `json:"limitMs"`
+	Case    string   `json:"case"`
+	Fields  []string `json:"fields"` // names of request/response fields that differ
+	WantSt  int      `json:"wantSt"`
+	TookMs  int      `json:"tookMs"`
+	LimitMs int      `json:"limitMs"`
 }
 
 type Lstate struct {
@@ -131,7 +132,7 @@ type Check struct {
 type sched struct {
 	Mode       string            `json:"mode"`
 	N          int               `json:"n"`
-	Sample     int               `json:"sample"` // 0 = all cases
+	Sample     int               `json:"sample"`     // 0 = all cases
 	GoneSample int               `json:"goneSample"` // c06: > 0 = all cases without a go-away upstream and this many with one
 	Churn      int               `json:"churn"`
 	PikoBin    string            `json:"pikoBin"`
@@ -563,6 +564,9 @@ func allC06(ids []string) []c06case {
 
 var c01endpoints = []string{"e", "e1", "e.x"}
 
+// settled placement requests that were refused at first and served once everything had settled again
+var transientRetries, transientServed int
+
 func runC01Placement(c *cluster, placed []Placed, emit emitter, rng *rand.Rand) error {
 	var ups []*psim.Upstream
 	for _, p := range placed {
@@ -586,40 +590,64 @@ func runC01Placement(c *cluster, placed []Placed, emit emitter, rng *rand.Rand) 
 				if mode == "host" && strings.Contains(target, ".") {
 					continue // a label cannot contain a dot
 				}
-				var rep psim.Reply
-				switch mode {
-				case "tcp":
-					rep = tcpRequest(c.byID[entry].ProxyAddr(), target, "none")
-				case "tcp-conflict":
-					// the path names the endpoint on the TCP route, whatever Host and header say
-					other := "e1"
-					if target == "e1" {
-						other = "e"
+				send := func() psim.Reply {
+					var rep psim.Reply
+					switch mode {
+					case "tcp":
+						rep = tcpRequest(c.byID[entry].ProxyAddr(), target, "none")
+					case "tcp-conflict":
+						// the path names the endpoint on the TCP route, whatever Host and header say
+						other := "e1"
+						if target == "e1" {
+							other = "e"
+						}
+						rep = tcpRequestHdr(c.byID[entry].ProxyAddr(), target, "none",
+							map[string]string{"Host": other + ".piko.example.com", "x-piko-endpoint": other})
+					default:
+						// a conflicting Host label when the header names the endpoint
+						hdr := map[string]string{}
+						if mode == "header" || mode == "header-hide" {
+							hdr["Host"] = "e1.piko.example.com"
+						}
+						reqMode := mode
+						if mode == "header-hide" {
+							// the client names the endpoint header as a hop-by-hop header: the request is still
+							// addressed to the endpoint the header names, on every hop
+							hdr["Connection"] = "x-piko-endpoint"
+							reqMode = "header"
+						}
+						rep = psim.Request(c.byID[entry].ProxyAddr(), reqMode, target, "GET", "/c01?x=1", hdr, nil)
 					}
-					rep = tcpRequestHdr(c.byID[entry].ProxyAddr(), target, "none",
-						map[string]string{"Host": other + ".piko.example.com", "x-piko-endpoint": other})
-				default:
-					// a conflicting Host label when the header names the endpoint
-					hdr := map[string]string{}
-					if mode == "header" || mode == "header-hide" {
-						hdr["Host"] = "e1.piko.example.com"
+					return rep
+				}
+				rep := send()
+				settled, note := true, ""
+				want := false
+				for _, p := range placed {
+					want = want || p.E == target
+				}
+				if want && rep.Status != 200 {
+					// the routing information may have stopped being settled under the request (on a starved
+					// machine a failure detector can flag a peer for a moment): the request is judged as
+					// "settled" only if it fails again once everything has settled again
+					transientRetries++
+					first := rep.Status
+					time.Sleep(300 * time.Millisecond)
+					psim.WaitFor(30*time.Second, func() bool { return psim.Settled(c.nodes, "") })
+					rep = send()
+					if rep.Status == 200 {
+						transientServed++
+						settled = false
+						note = fmt.Sprintf("first attempt answered %d; served after the routing information had settled again;", first)
 					}
-					reqMode := mode
-					if mode == "header-hide" {
-						// the client names the endpoint header as a hop-by-hop header: the request is still
-						// addressed to the endpoint the header names, on every hop
-						hdr["Connection"] = "x-piko-endpoint"
-						reqMode = "header"
-					}
-					rep = psim.Request(c.byID[entry].ProxyAddr(), reqMode, target, "GET", "/c01?x=1", hdr, nil)
 				}
 				s := &Step{Op: "Place", Nodes: c.ids(), Placed: placed, Entry: entry, Mode: mode, Target: target,
-					Status: rep.Status, Settled: true}
+					Status: rep.Status, Settled: settled, Note: note}
 				if rep.Stamp != nil {
 					s.ServedU, s.ServedE = rep.Stamp.Upstream, rep.Stamp.Endpoint
 				}
 				if rep.Err != "" {
-					s.Note = rep.Err
+					s.Note += rep.Err
 				}
 				emit(s)
 			}
@@ -961,6 +989,7 @@ func writeStats(path string, steps int, byOp map[string]int, distinct int) {
 	if path == "" {
 		return
 	}
-	b, _ := json.Marshal(map[string]interface{}{"steps": steps, "behaviours": 1, "by_op": byOp, "distinct_outcomes": distinct})
+	b, _ := json.Marshal(map[string]interface{}{"steps": steps, "behaviours": 1, "by_op": byOp, "distinct_outcomes": distinct,
+		"transient_retries": transientRetries, "transient_served": transientServed})
 	_ = os.WriteFile(path, b, 0o644)
 }
